@@ -195,6 +195,7 @@ type OpProfile struct {
 	NoSingleton   bool
 	NoSingletonVars bool // variable JSON values never use single-item → list coercion
 	CustomDirs    bool // schema-defined directives are applied on executable locations their definitions allow
+	Echo          bool // fragment bodies re-select fields already selected at the same response level (same key, same arguments)
 	MultiFrag     bool // several fragments (inline / spreads) may be emitted into one selection set
 	VarBias       int  // 0 = default (1 in 3 arguments is a plain variable); n>0 = n in 10
 	SkipVarInList bool // do not put variables inside list/object literals
@@ -210,6 +211,8 @@ func DefaultOpProfile(r *rand.Rand) OpProfile {
 type envNode struct {
 	sig      map[string]string
 	children map[string]*envNode
+	first    map[string]*FieldSel // key → first emission (for Echo)
+	order    []string
 }
 
 func newEnv() *envNode { return &envNode{sig: map[string]string{}, children: map[string]*envNode{}} }
@@ -224,6 +227,7 @@ func (e *envNode) child(key string) *envNode {
 }
 
 type opGen struct {
+	fragDepth int
 	r       *rand.Rand
 	s       *Schema
 	p       OpProfile
@@ -502,6 +506,13 @@ func (g *opGen) selSet(parent string, depth int, env *envNode, isRoot bool) []*S
 			fs.Alias = key
 		}
 		env.sig[key] = sig
+		if env.first == nil {
+			env.first = map[string]*FieldSel{}
+		}
+		if _, ok := env.first[key]; !ok {
+			env.first[key] = fs
+			env.order = append(env.order, key)
+		}
 		fs.Dirs = append(g.skipInclude(), g.customDirs("FIELD")...)
 		if isComposite {
 			fs.Sel = g.selSet(f.Type.NamedType(), depth+1, env.child(key), false)
@@ -515,6 +526,29 @@ func (g *opGen) selSet(parent string, depth int, env *envNode, isRoot bool) []*S
 		n := 1 + g.r.IntN(g.p.MaxFields)
 		for i := 0; i < n && len(fields) > 0; i++ {
 			addField(fields[g.r.IntN(len(fields))])
+		}
+	}
+	// echo: inside a fragment body, select again what is already selected at this response level
+	// (by the enclosing selection or a sibling fragment) — same key, same arguments
+	if g.p.Echo && g.fragDepth > 0 && td.Kind != Union {
+		for _, key := range append([]string(nil), env.order...) {
+			f0 := env.first[key]
+			fd := td.Field(f0.Name)
+			if fd == nil || g.r.IntN(3) != 0 || (g.p.FieldFilter != nil && !g.p.FieldFilter(parent, fd)) {
+				continue
+			}
+			if f0.Name+"("+argsSig(f0.Args)+"):"+fd.Type.String() != env.sig[key] || f0.Def == nil || !sameArgDefs(f0.Def, fd) {
+				continue
+			}
+			isComposite := g.s.IsComposite(fd.Type.NamedType())
+			if isComposite && depth >= g.p.MaxDepth {
+				continue
+			}
+			dup := &FieldSel{Alias: f0.Alias, Name: f0.Name, Args: f0.Args, Def: fd, Parent: parent}
+			if isComposite {
+				dup.Sel = g.selSet(fd.Type.NamedType(), depth+1, env.child(key), false)
+			}
+			out = append(out, &Sel{Field: dup})
 		}
 	}
 	if g.p.Typename && !(isRoot && g.op.Kind == "subscription") && (td.Kind == Union || td.Kind == Interface || g.r.IntN(4) == 0) && !(isRoot && g.op.Kind == "mutation") {
@@ -546,13 +580,17 @@ func (g *opGen) selSet(parent string, depth int, env *envNode, isRoot bool) []*S
 			if g.p.Defer && g.op.Kind == "query" && g.r.IntN(2) == 0 {
 				in.Dirs = append(in.Dirs, g.deferDir())
 			}
+			g.fragDepth++
 			in.Sel = g.selSet(cond, depth, env, false)
+			g.fragDepth--
 			out = append(out, &Sel{Inline: in})
 		} else {
 			g.fragN++
 			fr := &Frag{Name: fmt.Sprintf("F%d", g.fragN), On: cond, Dirs: g.customDirs("FRAGMENT_DEFINITION")}
 			// the body is generated into the spreading site's env; the fragment is spread only here
+			g.fragDepth++
 			fr.Sel = g.selSet(cond, depth, env, false)
+			g.fragDepth--
 			g.doc.Frags = append(g.doc.Frags, fr)
 			sp := &Spread{Name: fr.Name, Parent: parent}
 			sp.Dirs = append(g.skipInclude(), g.customDirs("FRAGMENT_SPREAD")...)
@@ -609,4 +647,23 @@ func (g *opGen) possibleConditions(parent string) []string {
 		out = []string{parent}
 	}
 	return out
+}
+
+// sameArgDefs: both fields declare the same arguments (names, types, defaults present alike).
+func sameArgDefs(a, b *Field) bool {
+	if len(a.Args) != len(b.Args) {
+		return false
+	}
+	for _, x := range a.Args {
+		ok := false
+		for _, y := range b.Args {
+			if x.Name == y.Name && x.Type.String() == y.Type.String() && (x.Default == nil) == (y.Default == nil) {
+				ok = true
+			}
+		}
+		if !ok {
+			return false
+		}
+	}
+	return true
 }
